@@ -3,7 +3,8 @@
    after an ARBITRARY finite sequence of: callRemote / callRemoteOnly / locally rejected call, answer / error /
    answer-violation arriving for any request id, complete() or fail() invoked on any request object at any time
    (send failure, late answer), connectionLost / shutdown with any reason (a class listed in LOST_CONNECTION_ERRORS, a proper subclass of one,
-   or an unrelated exception), and turns of the eventual-send queue. *)
+   or an unrelated exception), other callables -- raising or not -- put into the shared eventual-send queue at any point,
+   and turns of that queue (one event each). *)
 From Coq Require Import ZArith List Bool.
 Import ListNotations.
 Require Import Verif.gen.RequestsGen Verif.lib.Requests Verif.lib.RequestsProofs.
@@ -127,3 +128,18 @@ Theorem C03_lost_connection_gives_DeadReferenceError : forall ops r h c,
   exists c', get s2 h = Some c' /\ c_fires c' = [ODeadRef].
 Proof. exact lost_connection_gives_DeadReferenceError. Qed.
 Print Assumptions C03_lost_connection_gives_DeadReferenceError.
+
+(* the eventual-send queue (translated: FIFO append, batch snapshot, per-event try/except of _turn): running one event
+   removes exactly that event -- an exception raised by it drops nothing that is queued behind it *)
+Theorem C03_turn_runs_exactly_one_event : forall ops,
+  evq (step (run ops) Turn) = tl (evq (run ops)) /\ disconnected (step (run ops) Turn) = disconnected (run ops).
+Proof. exact turn_runs_exactly_one_event. Qed.
+Print Assumptions C03_turn_runs_exactly_one_event.
+
+(* a foreign event (a notifyOnDisconnect handler, an application's eventually(), raising or not) touches no request *)
+Theorem C03_foreign_event_changes_no_request : forall ops r q,
+  evq (run ops) = EForeign r :: q ->
+  calls (step (run ops) Turn) = calls (run ops) /\ table (step (run ops) Turn) = table (run ops) /\
+  evq (step (run ops) Turn) = q.
+Proof. exact foreign_event_changes_no_request. Qed.
+Print Assumptions C03_foreign_event_changes_no_request.
